@@ -1,6 +1,7 @@
 // Engine `num` (C16): the real recognisers / conversions of src/utilities.cpp.
 #include "hx_common.h"
 #include "utilities.h"
+#include "libcellml/module/libcellml"
 #include <stdexcept>
 
 using namespace libcellml;
@@ -45,12 +46,81 @@ static void enumerate(size_t n, std::string &cur)
     for (char c : alphabet) { cur.push_back(c); enumerate(n, cur); cur.pop_back(); }
 }
 
+// ---- numpos: the same text in every position where a number is read -----------------------------
+static std::string docFor(const std::string &pos, const std::string &s)
+{
+    auto v = [&](const char *p, const char *dflt) { return pos == p ? s : std::string(dflt); };
+    std::string cn;
+    if (pos == "cnmant" || pos == "cnexp") {
+        cn = "<cn cellml:units=\"dimensionless\" type=\"e-notation\">" + v("cnmant", "1.5") + "<sep/>" + v("cnexp", "2") + "</cn>";
+    } else {
+        cn = "<cn cellml:units=\"dimensionless\">" + v("cnreal", "1") + "</cn>";
+    }
+    return std::string("<?xml version=\"1.0\" encoding=\"UTF-8\"?>\n"
+           "<model xmlns=\"http://www.cellml.org/cellml/2.0#\" name=\"m\">\n"
+           "  <units name=\"uu\"><unit units=\"metre\" prefix=\"") + v("prefix", "3") + "\" exponent=\"" + v("exponent", "2") + "\" multiplier=\"" + v("multiplier", "1.5") + "\"/></units>\n"
+           "  <component name=\"c\">\n"
+           "    <variable name=\"v\" units=\"dimensionless\" initial_value=\"" + v("initial", "1") + "\"/>\n"
+           "    <variable name=\"w\" units=\"dimensionless\"/>\n"
+           "    <reset variable=\"v\" test_variable=\"w\" order=\"" + v("order", "1") + "\">\n"
+           "      <test_value><math xmlns=\"http://www.w3.org/1998/Math/MathML\" xmlns:cellml=\"http://www.cellml.org/cellml/2.0#\"><cn cellml:units=\"dimensionless\">1</cn></math></test_value>\n"
+           "      <reset_value><math xmlns=\"http://www.w3.org/1998/Math/MathML\" xmlns:cellml=\"http://www.cellml.org/cellml/2.0#\"><cn cellml:units=\"dimensionless\">2</cn></math></reset_value>\n"
+           "    </reset>\n"
+           "    <math xmlns=\"http://www.w3.org/1998/Math/MathML\" xmlns:cellml=\"http://www.cellml.org/cellml/2.0#\">"
+           "<apply><eq/><ci>w</ci>" + cn + "</apply></math>\n"
+           "  </component>\n</model>\n";
+}
+
+static int posAnswer(const std::string &pos, const std::string &s)
+{
+    using namespace libcellml;
+    Issue::ReferenceRule rule;
+    if (pos == "exponent") rule = Issue::ReferenceRule::UNIT_ATTRIBUTE_EXPONENT_VALUE;
+    else if (pos == "multiplier") rule = Issue::ReferenceRule::UNIT_ATTRIBUTE_MULTIPLIER_VALUE;
+    else if (pos == "prefix") rule = Issue::ReferenceRule::UNIT_ATTRIBUTE_PREFIX_VALUE;
+    else if (pos == "initial") rule = Issue::ReferenceRule::VARIABLE_INITIAL_VALUE_VALUE;
+    else if (pos == "order") rule = Issue::ReferenceRule::RESET_ORDER_VALUE;
+    else if (pos == "cnreal" || pos == "cnmant" || pos == "cnexp") rule = Issue::ReferenceRule::MATH_CN_FORMAT;
+    else return -2;
+    try {
+        auto parser = Parser::create(true);
+        auto model = parser->parseModel(docFor(pos, s));
+        int n = 0;
+        for (size_t i = 0; i < parser->issueCount(); ++i) if (parser->issue(i)->referenceRule() == rule) ++n;
+        if (model != nullptr) {
+            auto validator = Validator::create();
+            validator->validateModel(model);
+            for (size_t i = 0; i < validator->issueCount(); ++i) if (validator->issue(i)->referenceRule() == rule) ++n;
+            // the later stages must not throw either
+            auto printer = Printer::create();
+            printer->printModel(model);
+            auto analyser = Analyser::create();
+            analyser->analyseModel(model);
+        }
+        return n > 0 ? 1 : 0;
+    } catch (...) {
+        return -1;
+    }
+}
+
 int main(int argc, char **argv)
 {
     std::string mode = argc > 1 ? argv[1] : "";
     if (mode == "num-enum") {
         size_t n = size_t(atoi(argv[2]));
         for (size_t k = 0; k <= n; ++k) { std::string cur; enumerate(k, cur); }
+        return 0;
+    }
+    if (mode == "numpos") {
+        std::string line;
+        while (std::getline(std::cin, line)) {
+            auto t = hx::tokens(line);
+            std::string s;
+            if (t.size() != 2 || !hx::fromHex(t[1], s)) { puts("bad-line"); continue; }
+            int r = posAnswer(t[0], s);
+            if (r == -1) printf("%s %s THROWS\n", t[0].c_str(), t[1].c_str());
+            else printf("%s %s %d\n", t[0].c_str(), t[1].c_str(), r);
+        }
         return 0;
     }
     if (mode == "num") {
